@@ -12,13 +12,20 @@ LEVEL_TEXT = ("Partial proof. Proved in Lean for libraries of any size: first-oc
               "sympy_simplify with in-place writes, add_inv_subs, step (3), the round files) together with duplicate_checker.main around it (extra trees "
               "inherit their original's string, the round files are re-read and appended per function): doSympy_sound shows that if every CAS call is "
               "sound (OracleSound) then after ANY number of rounds every function is sound w.r.t. its final unique and the chain assembled from the "
-              "round files; round_files_recombine, files_same_length, extras_inherit_original cover the file bookkeeping. Termination of the loops is "
+              "round files; round_files_recombine, files_same_length, extras_inherit_original cover the file bookkeeping. The driver is also modelled on "
+              "P RANKS (Props/C03c: each rank runs the CAS on its split_idx block of the uniques, make_changes - with the index arithmetic read from "
+              "today's source - splices the blocks back): casCallRanks_eq, roundRanks_eq_round, doSympyRanks_eq_doSympy show that for a per-item CAS pass "
+              "(hypothesis PerItem = C13's hpure) the run on any P >= 1 ranks, incl. more ranks than items, IS the one-rank run; doSympyRanks_sound "
+              "transports doSympy_sound to any rank count, library_files_rank_independent says all library/round files are the same lists for all P, "
+              "perItem_needed shows the hypothesis cannot be dropped. Termination of the loops is "
               "not claimed. NOT proved (hypotheses StepSound/OracleSound): that sympy's subs/expand/factor/equals inside sympy_simplify and "
               "check_results produce sound rewrites. That part is checked on every run by an independent numeric oracle on every row of real libraries "
               "(shipped bases and PRNG bases through the verification hook) and on hand-built libraries with deliberately wrong merges.")
 TECHNIQUE = ("Lean 4 proof of the merge bookkeeping and of the do_sympy/duplicate_checker driver under a named hypothesis on the CAS steps; the driver model is "
              "tied to the code by running the REAL duplicate_checker.main/do_sympy under a PRNG-scripted CAS whose every answer is sound by construction "
-             "(hidden exact denotations over Z_p) and comparing every file with the model; numeric conformance oracle on every library row")
+             "(hidden exact denotations over Z_p) and comparing every file with the model - on one rank with a whole-list scripted sympy_simplify, and on "
+             "1, 2, 3, 5 and more-ranks-than-functions ranks (MPI stand-in) with a block-wise scripted sympy_simplify that hands its block to the REAL make_changes, "
+             "compared with the P-rank model and with the one-rank model; numeric conformance oracle on every library row")
 RULE = ("one case = one row of a generated library checked by the oracle (f(x; p(theta)) = u(x; theta) at generic points, or nan with fewer parameters), or one "
         "function of a scripted-CAS run checked exactly against the hidden denotations; non-trivial = the row has a non-empty chain or is marked "
         "unrecoverable / the scripted run merged functions and recorded chains; distinct by (basis, complexity, row) or (script)")
@@ -27,14 +34,22 @@ TRUSTED = ["hand model ESRVerif/Model/Library.lean of get_unique_indexes/get_mat
            "the do_sympy driver + duplicate_checker.main bookkeeping (tied by correspondence on PRNG scripts: returned strings, round count, every round "
            "file, all_equations/unique_equations/matches/inv_subs compared with the model)",
            "harness/oracle_lib.py (sympy parsing + numpy evaluation of library rows at generic points, finite values only)",
-           "harness/cas_script.py (script generator whose CAS answers are sound by construction; exact evaluation of the hidden denotations mod 10007)"]
+           "harness/cas_script.py (script generator whose CAS answers are sound by construction; exact evaluation of the hidden denotations mod 10007; "
+           "its block-wise stand-in for sympy_simplify repeats the slicing statements simplifier.py 290-298 by hand before calling the real make_changes)",
+           "hand model of the P-rank call in ESRVerif/Model/Library.lean section Ranks (rankBlock/casCallRanks: ONE block-wise CAS pass + ONE make_changes per "
+           "sympy_simplify call; make_changes itself is ESRVerif/Model/Gather.makeChanges with the extracted arithmetic, proved against split_idx in Props/C13b)",
+           "harness/mpi_standin + harness/mpirun.py (ranks = OS processes, collectives matched by a hub) instead of a real MPI library"]
 ASSUMPTIONS = ["StepSound/OracleSound: each sympy rewrite recorded by sympy_simplify is a sound (function, unique, map) triple and chains are only appended to - sampled, not proved",
                "generic points: x in (0.4,2.5), parameters in +-(0.4,2.5); rows never finite at any sampled point are counted unverifiable",
-               "scripted-CAS runs are single rank, complexity label 1-2 (check_results not reached), generator/initial_sympify/sympy_simplify/expand_or_factor "
+               "PerItem: the CAS answer for a unique depends on that unique alone. True of the scripted CAS by construction (table lookup by name) and of the "
+               "substitution passes of sympy_simplify; its two gathered 'is the sign-flipped / permuted form already in all_fun' passes (simplifier.py 516-573, "
+               "592-642) look the whole broadcast list up and sit between TWO make_changes calls - that structure is not in the model, so rank-independence of "
+               "those passes rests on C13's runs of real libraries on several ranks",
+               "scripted-CAS runs: complexity label 1-2 (check_results not reached), generator/initial_sympify/sympy_simplify/expand_or_factor "
                "replaced by the script; all but the first 24 (quick) / 300 (thorough) scripts run main's two shell commands per file (sed, mv) in-process",
                "termination of the two fixed-point loops is not claimed (the model has fuel and reports whether the exit condition was reached; every run reached it)"]
 MODELLED = ["utils.py:get_unique_indexes", "utils.py:get_match_indexes", "duplicate_checker.py:main", "simplifier.py:do_sympy", "simplifier.py:check_results",
-            "simplifier.py:count_params", "simplifier.py:get_max_param",
+            "simplifier.py:count_params", "simplifier.py:get_max_param", "simplifier.py:make_changes",
             # the rewrites themselves are not modelled (StepSound is a hypothesis): a change there widens the row-by-row oracle run
             "simplifier.py:sympy_simplify", "simplifier.py:simplify_inv_subs", "simplifier.py:get_all_dup"]
 
@@ -259,7 +274,7 @@ def _corr_driver_ranks(ctx, n):
     plan = [(1, list(range(n))), (2, list(range(n))), (3, list(range(n))), (5, list(range(n))), (pbig, small)]
     plan = [(P, ks) for j, (P, ks) in enumerate(plan) if ks and P not in [q for q, _ in plan[:j]]]
     stats = dict(scripts=n, ranks=[P for P, _ in plan], runs=0, mismatches=0, mismatch_vs_one_rank_model=0, property_failures=0, incomplete=0,
-                 ranks_disagree=0, surplus_rank_calls=0, empty_block_calls=0, calls=0, merges=0, rows_with_chain=0)
+                 ranks_disagree=0, surplus_rank_calls=0, empty_block_calls=0, calls_split_over_several_ranks=0, calls=0, merges=0, rows_with_chain=0)
     with ThreadPoolExecutor(len(plan)) as ex:
         res = list(ex.map(lambda pk: _launch_ranks(ctx, [scripts[k] for k in pk[1]], pk[0], "P%d" % pk[0]), plan))
     ops, want = [], []
@@ -284,6 +299,8 @@ def _corr_driver_ranks(ctx, n):
             for q, o in enumerate(outs):
                 stats["calls"] += len(o[j]["blocks"])
                 stats["empty_block_calls"] += sum(1 for b in o[j]["blocks"] if b == 0)
+            ncall = min(len(o[j]["blocks"]) for o in outs)
+            stats["calls_split_over_several_ranks"] += sum(1 for c in range(ncall) if sum(1 for o in outs if o[j]["blocks"][c] > 0) >= 2)
             stats["surplus_rank_calls"] += sum(1 for b in outs[-1][j]["blocks"] if b == 0) if P > 1 else 0
             ml = cas_script.model_line(sc, rec["nuniq"])[len("lib-main "):]
             ops.append("lib-main-ranks %d %s" % (P, ml)); want.append((P, sc, rec["line"], "model on %d ranks" % P))
@@ -327,7 +344,7 @@ def run(ctx):
     ctx.extra["source_drift"] = drift
     n, b = _corr_index(ctx, 3000 if deep else 600)
     drv = _corr_driver(ctx, 5000 if deep else 320)
-    rk = _corr_driver_ranks(ctx, 400 if deep else 40)
+    rk = _corr_driver_ranks(ctx, 400 if deep else 48)
     ctx.extra["corr_obligations"] = 3
     ctx.extra["corr_discharged"] = int(b == 0) + int(drv["mismatches"] == 0) + int(rk["mismatches"] == 0 and rk["incomplete"] == 0 and rk["ranks_disagree"] == 0)
     ctx.extra["correspondence"] = dict(index_ops=n, mismatches=b, do_sympy_driver=drv, do_sympy_driver_ranks=rk)
